@@ -70,8 +70,11 @@ package support
 
 //@ func support.TBE
 //@   flag noframe
+//@   flag countcalls
 //@   requires reftree != nil && cpu >= 0
 //@   call tree.NewEdgeIndex [bootstrap_tree_indexed_only_after_successful_taxon_check] err == nil
+//@   call tree.NewEdgeIndex@L3 [every_bootstrap_tree_is_reindexed_and_has_its_own_taxon_check_before_it_is_used] ghost(ncalls_CompareTipIndexes) == atHead(ghost(ncalls_CompareTipIndexes)) + 1 && ghost(ncalls_ReinitIndexes) == atHead(ghost(ncalls_ReinitIndexes)) + 1
+//@   call (*tree.Tree).CompareTipIndexes@L3 [the_taxa_of_the_bootstrap_tree_just_read_are_checked_against_the_reference] a0 == reftree && a1 == boot.Tree
 //@   call (*sync.WaitGroup).Add [one_worker_per_requested_thread_is_announced] a1 == cpu
 //@   call (*sync.WaitGroup).Wait [as_many_workers_were_started_as_were_announced] atexit(5, c) == cpu
 //@   loop 5
